@@ -4,6 +4,7 @@ import (
 	"encoding/binary"
 	"errors"
 	"fmt"
+	"io"
 )
 
 // HeaderHash
@@ -473,7 +474,7 @@ func (b *ByteSequence) Decode(d *Decoder) error {
 
 	// make the slice with length
 	byteSequence := make([]byte, length)
-	_, err = d.buf.Read(byteSequence)
+	_, err = io.ReadFull(d.buf, byteSequence)
 	if err != nil {
 		return err
 	}
@@ -1051,7 +1052,7 @@ func (bf *Bitfield) Decode(d *Decoder) error {
 	cLog(Cyan, "Decoding Bitfield")
 
 	bytes := make([]byte, AvailBitfieldBytes)
-	_, err := d.buf.Read(bytes)
+	_, err := io.ReadFull(d.buf, bytes)
 	if err != nil {
 		return err
 	}
@@ -2369,7 +2370,7 @@ func (m *MetaCode) Decode(d *Decoder) error {
 	// Decode the Metadata
 	if length > 0 {
 		metadata := make([]byte, length)
-		if _, err = d.buf.Read(metadata); err != nil {
+		if _, err = io.ReadFull(d.buf, metadata); err != nil {
 			return err
 		}
 
@@ -2379,7 +2380,7 @@ func (m *MetaCode) Decode(d *Decoder) error {
 	// Decode the Code (remaining bytes)
 	if d.buf.Len() > 0 {
 		code := make([]byte, d.buf.Len())
-		if _, err = d.buf.Read(code); err != nil {
+		if _, err = io.ReadFull(d.buf, code); err != nil {
 			return err
 		}
 
@@ -3144,7 +3145,7 @@ func (e *ExtrinsicData) Decode(d *Decoder) error {
 	}
 
 	data := make([]byte, length)
-	if _, err := d.buf.Read(data); err != nil {
+	if _, err := io.ReadFull(d.buf, data); err != nil {
 		return err
 	}
 	cLog(Yellow, "ExtrinsicData: %x", data)
